@@ -57,7 +57,8 @@ BeginCall(c) ==
   /\ ncalls' = ncalls + 1 /\ call' = c /\ prog' = Program(c)
   /\ deadAtEntry' = Dead /\ errAtEntry' = err
   /\ wr' = <<>> /\ got' = <<>> /\ ret' = Void /\ failed' = FALSE /\ empties' = 0 /\ rep' = NoRep
-  /\ hist' = Append(hist, [m |-> c.m, a |-> c.a, s |-> c.s, env |-> <<>>, obs |-> <<>>])
+  /\ hist' = Append(hist, [m |-> c.m, a |-> c.a, s |-> c.s, env |-> <<>>, obs |-> <<>>,
+                            b0 |-> [nick |-> board.nick, m1 |-> board.m1, m2 |-> board.m2, res |-> board.res, volt |-> board.volt]])
   /\ pc' = CASE c.m = "connect" -> "connect" [] c.m = "disconnect" -> "disconnect" [] c.m = "record_error" -> "recerr" [] OTHER -> "entry"
   /\ UNCHANGED <<port, err, name, board, dev, nfaults>>
 
